@@ -136,7 +136,10 @@ static bool gen_one(qop *op, gctx c) {
 	op->kind = kinds[g_n((uint32_t)nk)];
 	if (G->apply_weight && (G->opmask & (1u << OP_APPLY)) && !c.noblock && !G->gate && g_chance(G->apply_weight, 100)) op->kind = OP_APPLY;
 	op->form = (int)g_n(2);
-	if (op->kind == OP_BARRIER_ASYNC && G->blockobj && g_chance(1, 3)) op->form = 2;
+	if ((op->kind == OP_BARRIER_ASYNC || op->kind == OP_BARRIER_SYNC || op->kind == OP_BARRIER_AAW) && G->blockobj && g_chance(1, 3)) op->form = 2;
+	// any block-form submission may instead carry a block object made with dispatch_block_create(0, ...): same
+	// meaning, but the library takes its private-data paths
+	else if (op->form == 1 && !G->no_privblocks && op->kind != OP_APPLY && op->kind != OP_SUSPEND && op->kind != OP_PAUSE && g_chance(1, 5)) op->form = 3;
 	if (op->kind == OP_PAUSE) { op->depth = g_range(1, 200); return true; }
 	if (op->kind == OP_SUSPEND) {
 		// candidates: non-global, non-main, non-workloop queues
@@ -274,7 +277,7 @@ static void render_ops(qop *ops, int n, int ind) {
 		else if (op->kind == OP_SUSPEND) h_sample("(q%d) x%d resume=%s", op->q, op->depth, op->body_arg == 1 ? "async" : "inline");
 		else if (op->kind == OP_ACTIVATE) h_sample("(q%d)", op->q);
 		else if (op->kind == OP_APPLY) h_sample("(%d, %s%d) items %d..%s", op->apply_n, op->apply_auto ? "AUTO/q" : "q", op->q, op->item, op->body == B_NEST ? " body=nest(iteration 0)" : "");
-		else h_sample("%s(q%d) item %d body=%s%s", op->form == 2 ? "[BARRIER block object via dispatch_async]" : op->form ? "" : "_f", op->q, op->item,
+		else h_sample("%s(q%d) item %d body=%s%s", op->form == 2 ? "[BARRIER block object via the plain call]" : op->form == 3 ? "[block object]" : op->form ? "" : "_f", op->q, op->item,
 			op->body == B_EMPTY ? "empty" : op->body == B_YIELD ? "yield" : op->body == B_SLEEP ? "sleep" : op->body == B_NEST ? "nest" : "wait-later",
 			"");
 		if (op->body == B_WAIT_LATER) h_sample("(item %d)", op->wait_item);
@@ -523,20 +526,25 @@ static void run_one(qop *op, int client, qitem *from) {
 	h_log("call %s item %d q%d", opnames[op->kind], it->id, op->q);
 	if (op->arm_rel) sim_arm_stall((uint32_t)op->arm_rel, op->arm_code);
 	switch (op->kind) {
-	case OP_ASYNC: if (op->form) dispatch_async(q, ^{ item_body(it); }); else dispatch_async_f(q, it, item_fn); break;
-	case OP_BARRIER_ASYNC:
-		if (op->form == 2) {
-			// a block object created with DISPATCH_BLOCK_BARRIER submitted with plain dispatch_async
-			dispatch_block_t bo = dispatch_block_create(DISPATCH_BLOCK_BARRIER, ^{ item_body(it); });
-			dispatch_async(q, bo);
-			Block_release(bo);
-		} else if (op->form) dispatch_barrier_async(q, ^{ item_body(it); }); else dispatch_barrier_async_f(q, it, item_fn);
-		break;
-	case OP_GROUP_ASYNC: if (op->form) dispatch_group_async(grp, q, ^{ item_body(it); }); else dispatch_group_async_f(grp, q, it, item_fn); break;
-	case OP_SYNC: if (op->form) dispatch_sync(q, ^{ item_body(it); }); else dispatch_sync_f(q, it, item_fn); break;
-	case OP_BARRIER_SYNC: if (op->form) dispatch_barrier_sync(q, ^{ item_body(it); }); else dispatch_barrier_sync_f(q, it, item_fn); break;
-	case OP_AAW: if (op->form) dispatch_async_and_wait(q, ^{ item_body(it); }); else dispatch_async_and_wait_f(q, it, item_fn); break;
-	case OP_BARRIER_AAW: if (op->form) dispatch_barrier_async_and_wait(q, ^{ item_body(it); }); else dispatch_barrier_async_and_wait_f(q, it, item_fn); break;
+	case OP_ASYNC: case OP_BARRIER_ASYNC: case OP_GROUP_ASYNC: case OP_SYNC: case OP_BARRIER_SYNC: case OP_AAW: case OP_BARRIER_AAW: {
+		// form 0: function; 1: block literal; 2: block object with DISPATCH_BLOCK_BARRIER through the plain call;
+		// 3: block object without flags through the call of its kind
+		dispatch_block_t bo = NULL;
+		if (op->form == 2) bo = dispatch_block_create(DISPATCH_BLOCK_BARRIER, ^{ item_body(it); });
+		else if (op->form == 3) bo = dispatch_block_create(0, ^{ item_body(it); });
+		int k = op->kind;
+		if (op->form == 2) k = k == OP_BARRIER_ASYNC ? OP_ASYNC : k == OP_BARRIER_SYNC ? OP_SYNC : OP_AAW;
+		switch (k) {
+		case OP_ASYNC: if (bo) dispatch_async(q, bo); else if (op->form) dispatch_async(q, ^{ item_body(it); }); else dispatch_async_f(q, it, item_fn); break;
+		case OP_BARRIER_ASYNC: if (bo) dispatch_barrier_async(q, bo); else if (op->form) dispatch_barrier_async(q, ^{ item_body(it); }); else dispatch_barrier_async_f(q, it, item_fn); break;
+		case OP_GROUP_ASYNC: if (bo) dispatch_group_async(grp, q, bo); else if (op->form) dispatch_group_async(grp, q, ^{ item_body(it); }); else dispatch_group_async_f(grp, q, it, item_fn); break;
+		case OP_SYNC: if (bo) dispatch_sync(q, bo); else if (op->form) dispatch_sync(q, ^{ item_body(it); }); else dispatch_sync_f(q, it, item_fn); break;
+		case OP_BARRIER_SYNC: if (bo) dispatch_barrier_sync(q, bo); else if (op->form) dispatch_barrier_sync(q, ^{ item_body(it); }); else dispatch_barrier_sync_f(q, it, item_fn); break;
+		case OP_AAW: if (bo) dispatch_async_and_wait(q, bo); else if (op->form) dispatch_async_and_wait(q, ^{ item_body(it); }); else dispatch_async_and_wait_f(q, it, item_fn); break;
+		case OP_BARRIER_AAW: if (bo) dispatch_barrier_async_and_wait(q, bo); else if (op->form) dispatch_barrier_async_and_wait(q, ^{ item_body(it); }); else dispatch_barrier_async_and_wait_f(q, it, item_fn); break;
+		}
+		if (bo) Block_release(bo);
+		break; }
 	}
 	it->ret = h_stamp();
 	h_log("ret %s item %d", opnames[op->kind], it->id);
